@@ -128,6 +128,7 @@ struct Scn {
     // outcome
     bool failed = false; int threads = 0; uint64_t sig = 0; size_t nchunks = 0;
     std::string sample;
+    int caller = -1; mutable std::atomic<int> slow_calls{0};     // work mode 5: the thread that called the algorithm is slow in its first leaves
     explicit Scn(uint64_t sd) : seed(sd), r(sd) { desc.obj(); }
     std::string describe() { Json j = desc; j.kv("seed", (unsigned long long)seed); j.kv("class", class_name[cls]); j.kv("partitioner", part_name[part]); j.kv("arena_concurrency", P); j.kv("with_context", ctx); j.kv("nested", nested); j.kv("work", work); j.end_obj(); return j.s; }
     void fail(const std::string& key, const std::string& detail) {
@@ -149,6 +150,11 @@ static inline void chunk_work(const Scn& s, uint64_t salt) {
     case 1: if ((h & 7) == 0) spin_iters((unsigned)((h >> 8) % 3000)); break;
     case 2: if (salt == 0) spin_iters(2000 + (unsigned)((h >> 8) % 20000)); break;       // whoever gets the first chunk is slow
     case 3: if ((h & 15) == 0) sched_yield(); else if ((h & 15) == 1) spin_iters((unsigned)((h >> 8) % 1500)); break;
+    case 5:
+        // the calling thread dawdles in its first leaves while everybody else is fast and hungry: every piece it offers is stolen before it
+        // finishes the next leaf, so its task keeps answering steal demands and its range pool (8 slots, circular) fills, wraps and deepens
+        if (body_tid() == s.caller && s.slow_calls.fetch_add(1, std::memory_order_relaxed) < 28) sleep_us(40 + (unsigned)((h >> 8) % 260));
+        break;
     default: spin_iters((unsigned)((h >> 8) % 200)); break;
     }
 }
@@ -298,6 +304,13 @@ template <class V> static void scen_blocked_small(Scn& s) {
     V e0 = (V)(b0 + (V)n);
     std::unique_ptr<std::atomic<uint8_t>[]> cnt(new std::atomic<uint8_t>[n + 1]());
     run_blocked<V>(s, b0, e0, n, (size_t)g, cnt.get());
+}
+// slow caller + adaptive partitioner: a range deep enough (2^18..2^22 elements, grainsize 1-2) for one task to answer many steal demands in
+// a row - its circular range pool wraps and deepens. Chunk-list oracle only (the number of chunks follows the steals, not n/g).
+static void scen_blocked_deep(Scn& s) {
+    uint64_t n = (1ull << 18) + s.r.below((1ull << 22) - (1ull << 18)), g = 1 + s.r.below(2);
+    unsigned long b0 = s.r.chance(1, 2) ? 0ul : (unsigned long)s.r.below(1ull << 40);
+    run_blocked<unsigned long>(s, b0, b0 + n, n, (size_t)g, nullptr);
 }
 static void scen_blocked_pointer(Scn& s) {
     uint64_t n = pick_size(s.r, 65536), g = pick_grain(s.r, n);
@@ -720,12 +733,14 @@ static void account(Scn& s) {
 
 static void run_leaf(Scn& s) {
     s.P = tbb::this_task_arena::max_concurrency();
+    s.caller = body_tid();
     unsigned x = (unsigned)s.r.below(100);
     if (g_cfg.only_class >= 0) { static const unsigned at[] = { 0, 40, 48, 64, 78, 94 }; x = at[g_cfg.only_class]; }
     if (x < 40) {
         s.cls = C_R;
         unsigned t = (unsigned)s.r.below(s.asan ? 22 : 26);
-        if (t < 5) scen_blocked_small<int>(s); else if (t < 8) scen_blocked_small<unsigned>(s); else if (t < 11) scen_blocked_small<long long>(s);
+        if (s.work == 5 && (s.part == P_AUTO || s.part == P_AFFINITY || s.part == P_DEFAULT) && s.r.chance(3, 4)) scen_blocked_deep(s);
+        else if (t < 5) scen_blocked_small<int>(s); else if (t < 8) scen_blocked_small<unsigned>(s); else if (t < 11) scen_blocked_small<long long>(s);
         else if (t < 14) scen_blocked_small<unsigned long>(s); else if (t < 16) scen_blocked_small<short>(s); else if (t < 18) scen_blocked_small<unsigned char>(s);
         else if (t < 20) scen_blocked_pointer(s);
         else if (t < 22) scen_blocked_huge<unsigned long>(s); else if (t < 24) scen_blocked_huge<long long>(s); else scen_blocked_huge<unsigned>(s);
@@ -754,7 +769,7 @@ static void run_leaf(Scn& s) {
 static void init_scn(Scn& s) {
     s.part = g_cfg.only_part >= 0 ? g_cfg.only_part : (int)s.r.below(5);
     s.ctx = s.r.chance(1, 5);
-    s.work = (int)s.r.below(6); if (s.work > 4) s.work = 0;
+    s.work = (int)s.r.below(7); if (s.work > 5) s.work = 0;
     s.asan = g_cfg.asan; s.edges = g_cfg.edges; s.axis_edge = g_cfg.axis_edge;
 }
 
